@@ -66,6 +66,10 @@ def oracle_programs(prop):
         p = str(m.get("property", "")).split()[0].strip(",") if m.get("property") else ""
         if p == prop and m.get("confirmation", {}).get("confirmed"):
             res.append(("seeded/%s/demo" % os.path.basename(d), os.path.join(d, "demo")))
+    # oracle programs written for the machinery itself (witness/oracles/<property>_<name>/: a cargo package like the demos)
+    for d in sorted(glob.glob(os.path.join(ROOT, "witness", "oracles", prop + "_*"))):
+        if os.path.exists(os.path.join(d, "Cargo.toml")):
+            res.append(("witness/oracles/%s" % os.path.basename(d), d))
     excl = set()
     try:
         excl = set(json.load(open(os.path.join(ROOT, "witness", "oracle_validation.json"))).get("excluded", []))
